@@ -150,6 +150,15 @@ Definition local_is_expired (now_ns lock ttl : Z) : bool :=
 Definition local_until_expired (now_ns lock ttl : Z) : Z :=
   wrap_i64 (wrap_i64 (extract_physical lock + wrap_i64 ttl) - now_ns / 1000000).
 
+(* ---------- mock.go: MockOracle.GetTimestamp under its mutex (now_ms = clock + offset) ---------- *)
+Definition mock_get_ts (last now_ms : Z) : Z :=
+  let ts := go_time_to_ts now_ms in
+  if extract_physical last =? extract_physical ts then wrap_u64 (last + 1) else ts.
+
+(* ---------- local_external_timestamp.go: setExternalTimestamp (cur = the oracle's current timestamp) ---------- *)
+Definition set_external (ext cur nw : Z) : option Z :=
+  if cur <? nw then None else if nw <? ext then None else Some nw.
+
 (* helpers for the correspondence driver *)
 Definition zle (a b : Z) : bool := a <=? b.
 Definition zlt (a b : Z) : bool := a <? b.
